@@ -45,7 +45,7 @@ func init() {
 		Rule: "inputs: (w) fixed witnesses of recorded findings/fixes; (t) ALL strings of 1..3 tokens (quick; thorough adds a 1/8 hash sample of length 4) over a 46-token alphabet of klog fragments incl. invalid UTF-8, NUL, lone CR, NBSP and numbers at the int boundaries; " +
 			"(m) byte-level mutations (flip, insert token, delete, splice, truncate inside a rune, huge number, line-ending swap, line duplication, blank replacement) of generated documents and rule-violating mutants; (r) PRNG bytes. " +
 			"every input: serial parse and parallel parse with n in {2,3,7,len+1}; shape must be (records, one block per record, no errors) or (no records, >=1 error) or nothing at all for blank input; " +
-			"rejected: every txt.Error accessor, the terminal report under all 4 themes, json.ToJson of the errors; accepted: print, print --with-totals, total --diff [--now], report -a d/w/m/q/y [--fill span<=3000d] [--chart] [--diff] [--now], tags -v -c, today --diff --now, json [--pretty], " +
+			"rejected: every txt.Error accessor, the terminal report under all 4 themes, json.ToJson of the errors; accepted: print, print --with-totals, total --diff [--now], report -a d/w/m/q/y [--fill span<=3000d, for quarters and years span<=250000d] [--chart] [--diff] [--now], tags -v -c, today --diff --now, json [--pretty], " +
 			"each with PRNG filter/sort flags, warnings enabled, clock = fixed date or the first record's date; 1 in 25 accepted and 1 in 250 rejected inputs additionally through the real binary (file and stdin). " +
 			"oracle: no panic (recover in-process, exit status and output scan for the binary, process death seen by the supervisor), shape predicate; a case above 20 s is reported as slow (inconclusive), a child killed by the watchdog is replayed alone to separate hangs from load. " +
 			"non-trivial & distinct = inputs that reach the record parser (>=1 significant line), by hash",
@@ -397,7 +397,10 @@ func c06Evaluate(e *core.Env, r *core.Rand, text string, recs []klog.Record, w m
 			return (&cli.Total{FilterArgs: c06Filter(r, recs), DiffArgs: util.DiffArgs{Diff: true}, NowArgs: util.NowArgs{Now: now}, DecimalArgs: util.DecimalArgs{Decimal: r.Chance(1, 4)}, InputFilesArgs: files}).Run(ctx)
 		}},
 		{"report", func(ctx app.Context) app.Error {
-			return (&cli.Report{AggregateBy: r.Pick("d", "w", "m", "q", "y", "day", "WEEK"), Fill: fillOK && r.Bool(), Chart: forceChart || (chartOK && r.Bool()), DiffArgs: util.DiffArgs{Diff: r.Bool()},
+			agg := r.Pick("d", "w", "m", "q", "y", "day", "WEEK")
+			// (--fill prints one row per period: days/weeks/months only for short spans, quarters and years for spans of centuries)
+			fill := (fillOK || ((agg == "q" || agg == "y") && maxD-minD <= 250000)) && r.Bool()
+			return (&cli.Report{AggregateBy: agg, Fill: fill, Chart: forceChart || (chartOK && r.Bool()), DiffArgs: util.DiffArgs{Diff: r.Bool()},
 				FilterArgs: c06Filter(r, recs), NowArgs: util.NowArgs{Now: r.Chance(1, 3)}, DecimalArgs: util.DecimalArgs{Decimal: r.Chance(1, 4)}, InputFilesArgs: files}).Run(ctx)
 		}},
 		{"tags", func(ctx app.Context) app.Error {
